@@ -52,17 +52,17 @@ def compute_mu_h(levy_measure, grid: CTMCGrid, axis: np.array, origin: int) -> f
     """
     integral = levy_measure.integrate
     middle = grid.middle
-    right_point = grid.right_point
+    last = len(axis) - 1
 
     mu_h = 0
-    mid_point_left = middle(grid.left_point(0), axis[0])
+    mid_point_left = middle(axis[0], axis[0])
     for position, xi in enumerate(axis):
         if position != origin:
-            mid_point_right = middle(xi, right_point(position))
+            mid_point_right = middle(xi, axis[min(last, position + 1)])
             mu_h += np.array(xi) * integral(mid_point_left, mid_point_right)
             mid_point_left = mid_point_right
         else:
-            mid_point_left = middle(grid.left_point(origin + 1), axis[origin + 1])
+            mid_point_left = middle(axis[origin], axis[origin + 1])
 
     return mu_h
 
